@@ -370,7 +370,9 @@ func genC03(o *Out, r *rand.Rand, thorough bool) {
 }
 
 func randomBound(r *rand.Rand) string {
-	switch r.Intn(7) {
+	switch r.Intn(8) {
+	case 7:
+		return fmt.Sprintf("M:%d:0", []int{-8, -6, -4, -2, 1, 3, 5, 7}[r.Intn(8)])
 	case 0:
 		return "N:0:0"
 	case 1:
@@ -411,6 +413,11 @@ func genC13(o *Out, r *rand.Rand, thorough bool) {
 			o.Nontrivial(line)
 		}
 	}
+	dc := 20
+	if thorough {
+		dc = 400
+	}
+	deepClipOracle(o, r, dc)
 	for i := 0; i < n; i++ {
 		start, moves, b := randomLine(r, 16)
 		cfg := pickCfg(r, b)
